@@ -7,7 +7,16 @@ import (
 // rng: splitmix64; every random choice of a run derives from VERIF_SEED.
 type rng struct{ s uint64 }
 
-func newRng(seed uint64) *rng { return &rng{seed*0x9E3779B97F4A7C15 + 0x1234567} }
+// The starting state is the splitmix64 finaliser of the seed: with the former `seed*G + c` (G the
+// increment of next) seed k was seed 1 shifted by k-1 draws, so all seeds walked ONE orbit a few draws
+// apart and their streams coalesced at the first generator with a variable number of draws (noticed
+// on C01: seeds 1 and 7 differed in 112 of 37281 lines).
+func newRng(seed uint64) *rng {
+	z := seed + 0x9E3779B97F4A7C15
+	z = (z ^ (z >> 30)) * 0xBF58476D1CE4E5B9
+	z = (z ^ (z >> 27)) * 0x94D049BB133111EB
+	return &rng{z ^ (z >> 31)}
+}
 
 func (r *rng) next() uint64 {
 	r.s += 0x9E3779B97F4A7C15
